@@ -75,15 +75,16 @@ Module MsgpackI.
     normf := norm O D;
     rem := @length N |}.
 
-  (* [goslice]: the input is a Go slice (its length fits an int) *)
+  (* [goslice]: the input is a Go slice (its length fits an int); [sint_ok]: under SignedInteger no unsigned
+     value >= 2^63 (its schema-less decode is the overflow error) *)
   Definition ok (O : eopts) (D : dopts) (d0 : Z) (i : item) (_ : unit) (tl : list N) : Prop :=
-    supported i /\ (Z.of_nat (depth i) < maxdepth D)%Z /\ (d0 + Z.of_nat (depth i) < maxdepth D)%Z
+    supported i /\ sint_ok D i /\ (Z.of_nat (depth i) < maxdepth D)%Z /\ (d0 + Z.of_nat (depth i) < maxdepth D)%Z
     /\ goslice (len (enc O i ++ tl)).
 
   Lemma laws_ok : forall O D d0, laws (F O D d0) at_plain (ok O D d0) 0.
   Proof.
     intros O D d0. split.
-    - intros v e c tl (Hs & Hd & Hd0 & Hg) Hat. red in Hat. subst c. cbn [encf F fst snd].
+    - intros v e c tl (Hs & Hi & Hd & Hd0 & Hg) Hat. red in Hat. subst c. cbn [encf F fst snd].
       exists tl. repeat apply conj.
       + cbn [decf F normf]. apply dec_enc; assumption.
       + cbn [skipf F]. rewrite (skip_enc O D v tl d0 Hs Hd0). apply capture_app.
